@@ -7,6 +7,39 @@ from infra import BAD_FIXTURE, Report, Sink, loc
 from ir import short
 
 
+
+def _can_replace_through(f, local, seen):
+    """`local` holds `&mut Box<[f64]>` (e.g. from `let Self { deque, .. } = self`).  The buffer can be *replaced* through it only if
+    the reference is assigned through as a whole (`*r = ..`), handed to a call, or copied somewhere that is; element stores
+    (`(**r)[i] = x`) and reads do not change the buffer's length."""
+    if local in seen:
+        return False
+    seen.add(local)
+    for b in f.mir["blocks"]:
+        if b["cleanup"]:
+            continue
+        for st in b["stmts"]:
+            if st["k"] != "assign":
+                continue
+            pl = st["place"]
+            if pl["local"] == local and [e["k"] for e in pl["proj"]] == ["deref"]:
+                return True
+            rv = st["rv"]
+            ops = [rv.get("op"), rv.get("a"), rv.get("b")] + list(rv.get("ops", []))
+            for o in ops:
+                if isinstance(o, dict) and o.get("k") in ("copy", "move") and o["place"]["local"] == local and not o["place"]["proj"]:
+                    if pl["proj"] or _can_replace_through(f, pl["local"], seen):
+                        return True
+            if rv["k"] in ("ref", "rawptr") and rv["place"]["local"] == local and [e["k"] for e in rv["place"]["proj"]] == ["deref"] and rv.get("mut"):
+                if pl["proj"] or _can_replace_through(f, pl["local"], seen):
+                    return True
+        t = b["term"]
+        if t["k"] == "call":
+            for a in t["args"]:
+                if isinstance(a, dict) and a.get("k") in ("copy", "move") and a["place"]["local"] == local and not a["place"]["proj"]:
+                    return True
+    return False
+
 def g1_grammar(F, S):
     for name in F.indicators():
         adt = F.adt_by_short[name]
@@ -62,7 +95,8 @@ def g3_buffer_stores(F, S):
                 rv = st["rv"]
                 if rv["k"] == "ref" and rv["mut"]:
                     p2 = rv["place"]
-                    if p2["proj"] and p2["proj"][-1]["k"] == "field" and p2["ty"].startswith("std::boxed::Box<["):
+                    if p2["proj"] and p2["proj"][-1]["k"] == "field" and p2["ty"].startswith("std::boxed::Box<[") \
+                            and (st["place"]["proj"] or _can_replace_through(f, st["place"]["local"], set())):
                         S.bad("G3", "buffer-mut-borrow", "%s:%s" % (f.label, p2["proj"][-1]["name"]),
                               "%s takes `&mut` of the whole buffer field `%s` (it can be replaced through the reference); UNRECOGNISED idiom" % (f.label, p2["proj"][-1]["name"]), loc(st["span"]))
                 if rv["k"] == "aggregate" and rv.get("agg") == "adt" and not rv.get("is_enum"):
